@@ -179,6 +179,7 @@ class World:
         self.seq = 0
         self.outcomes = {d: list(v) for d, v in outcomes.items()}
         self.timing = timing
+        self.no_pf_hit_until = 0.0
         self.fired_full = []                               # property-level events
         self.overflow = []                                 # a ball reached a device without a free slot
         self.history = []
@@ -253,6 +254,10 @@ class World:
         self.slots[d][slot] = None
         tr = {"ball": ball, "src": d, "dst": dst, "kind": outcome}
         self.transit.append(tr)
+        if outcome == "fallback" and self.topo[d]["exit"] == "pf":
+            # until the source's confirm window (eject_timeout) is over MPF takes any playfield switch hit (by another
+            # ball) for the confirmation of this eject, although the ball comes back: ambiguous, not generated
+            self.no_pf_hit_until = max(self.no_pf_hit_until, self.now() + self.p["eject_to"] / 1000.0 + 4 * GRID)
         self.note("left", d, ball, outcome)
         self.switch(self.topo[d]["switches"][slot], 0)
         if outcome == "ok":
@@ -267,6 +272,7 @@ class World:
 
     def _arrive(self, tr):
         self.transit.remove(tr)
+
         self.enter(tr["dst"], tr["ball"], tr["src"], tr["kind"])
 
     def enter(self, dst, ball, src, tr_kind="ok"):
@@ -295,7 +301,7 @@ class World:
         """a playfield switch can only be hit by a loose ball; and while a ball that was ejected towards the playfield
         is falling back into its device, a hit by *another* ball is indistinguishable from the confirmation of that
         eject (MPF would confirm it and let the next ball be fired at the still-returning one): not generated"""
-        if not self.loose:
+        if not self.loose or self.now() < self.no_pf_hit_until:
             return False
         for x in self.transit:
             if x["kind"] == "fallback" and self.topo[x["src"]]["exit"] == "pf":
@@ -733,10 +739,24 @@ def _run_case(case, run, res, model):
         tick = round(run.vm.now() / GRID)
         ctxd = {"tick": tick, "snap": s, "truth": truth, "obs": run.obs[-16:], "world": world.history[-16:]}
         broken = [d for d in DEVS if s[d]["state"] == "eject_broken"]
+        starved = None
+        if p["topo"] == "two_src" and not broken:
+            # second recorded finding of the two-sources topology: a source waiting in wait_for_ready_to_receive (room taken
+            # by the other source's incoming ball) is only woken by a ball-count change of the target; when that incoming
+            # ball is declared lost the room is free again but nobody re-checks: the source waits for ever
+            t = s["plunger"]
+            for d in ("trough", "lock"):
+                if s[d]["state"] == "waiting_for_target_ready" and t["cap"] - t["counted"] > t["incoming"] and \
+                        any(o[1] == "lost_ejected" and o[3] == "plunger" for o in run.obs):
+                    starved = d
+        if starved:
+            res.fail("stuck:source-not-woken-after-incoming-ball-lost:two-sources", dict(ctxd, waiting_source=starved))
+            return
         for d in DEVS:
             if s[d]["balls"] != truth[d]:
                 res.fail("rest:device-count-differs:" + d, ctxd)
-            if s[d]["state"] not in ("idle", "eject_broken") and not _blocked_by_broken(s, d, broken, p):
+            if s[d]["state"] not in ("idle", "eject_broken") and not _blocked_by_broken(s, d, broken, p) \
+                    and not _waits_for_unavailable_ball(s, d, p):
                 res.fail("rest:device-not-idle:" + d, ctxd)
         if not broken:
             if s["playfield"]["balls"] != truth["playfield"]:
@@ -748,14 +768,15 @@ def _run_case(case, run, res, model):
             if av != s["known"]:
                 res.fail("rest:available-sum-differs-from-known", ctxd)
             for d in DEVS:
-                if s[d]["avail"] < 0 or s[d]["avail"] > s[d]["balls"]:
+                owed = _waits_for_unavailable_ball(s, d, p)     # a claim on a ball that is not there yet (restored path)
+                if (s[d]["avail"] < 0 and not owed) or s[d]["avail"] > s[d]["balls"]:
                     res.fail("rest:available-out-of-range:" + d, ctxd)
             # progress: every requested ball delivered, or no ball can serve the request
             queued = sum(s[d]["reqs"] for d in DEVS)
             if queued and _servable(s, p):
                 res.fail("rest:servable-request-still-queued", ctxd)
             for d in DEVS:
-                if s[d]["queue"]:
+                if s[d]["queue"] and not _waits_for_unavailable_ball(s, d, p):
                     res.fail("rest:eject-queue-not-empty:" + d, ctxd)
             plans = sum(1 for o in run.obs if o[1] == "plan" and o[2][-1] == "playfield")
             if world.delivered["pf"] < plans:      # every chain MPF committed to the playfield physically delivered a ball
@@ -886,6 +907,16 @@ def _run_case(case, run, res, model):
 def _blocked_by_broken(s, d, broken, p):
     """a device may legitimately wait for ever for a ball that a broken upstream device will never deliver"""
     return bool(broken) and s[d]["state"] in ("waiting_for_ball", "waiting_for_target_ready")
+
+
+def _upstream(p):
+    return {"trough": [], "plunger": ["trough"] + (["lock"] if p["topo"] == "two_src" else []), "lock": []}
+
+
+def _waits_for_unavailable_ball(s, d, p):
+    """the device holds a planned eject but neither it nor any device upstream has a ball: nothing can be served"""
+    return s[d]["state"] == "waiting_for_ball" and s[d]["counted"] == 0 and \
+        all(s[x]["counted"] == 0 and s[x]["state"] in ("idle", "eject_broken") for x in _upstream(p)[d])
 
 
 def _servable(s, p):
